@@ -1,4 +1,4 @@
-use std::sync::{Arc, atomic::{AtomicUsize, Ordering}};
+use std::sync::{Arc, atomic::{AtomicBool, AtomicUsize, Ordering}};
 
 use crossbeam::utils::Backoff;
 use log::trace;
@@ -20,9 +20,10 @@ pub fn new<T>(memory_capacity: usize) -> (Sender<T>, Receiver<T>) {
     #[cfg(rjrssync_verif)] let memory_capacity = verif_hooks::capacity_override(memory_capacity);
     let (s, r) = crossbeam::channel::unbounded::<(T, usize)>();
     let counter = Arc::new(AtomicUsize::new(0));
+    let receiver_alive = Arc::new(AtomicBool::new(true));
     (
-        Sender::<T> { inner: s, memory_capacity, channel_memory_usage: counter.clone() },
-        Receiver::<T> { inner: r, channel_memory_usage: counter },
+        Sender::<T> { inner: s, memory_capacity, channel_memory_usage: counter.clone(), receiver_alive: receiver_alive.clone() },
+        Receiver::<T> { inner: r, channel_memory_usage: counter, receiver_alive },
     )
 }
 
@@ -32,6 +33,7 @@ pub struct Sender<T> {
     inner: crossbeam::channel::Sender<(T, usize)>,
     memory_capacity: usize,
     channel_memory_usage: Arc<AtomicUsize>,
+    receiver_alive: Arc<AtomicBool>,
 }
 
 impl<T: Serialize> Sender<T> {
@@ -51,6 +53,10 @@ impl<T: Serialize> Sender<T> {
             trace!("Blocking to wait for memory capacity");
             let backoff = Backoff::new();
             while self.channel_memory_usage.load(Ordering::Relaxed) - memory_usage > self.memory_capacity {
+                if !self.receiver_alive.load(Ordering::Relaxed) {
+                    // Nobody will ever free up space, so don't wait forever. The send below will report the disconnection.
+                    break;
+                }
                 backoff.snooze();
             }
         }
@@ -64,6 +70,14 @@ impl<T: Serialize> Sender<T> {
 pub struct Receiver<T> {
     inner: crossbeam::channel::Receiver<(T, usize)>,
     channel_memory_usage: Arc<AtomicUsize>,
+    receiver_alive: Arc<AtomicBool>,
+}
+
+impl<T> Drop for Receiver<T> {
+    fn drop(&mut self) {
+        // Wake up a sender that is waiting for capacity, as it will never get any now.
+        self.receiver_alive.store(false, Ordering::Relaxed);
+    }
 }
 
 impl<T> Receiver<T> {
